@@ -186,6 +186,8 @@ EMITTED = {"out1_", "v_", "it_", "oivld", "sub_while", "run_for_o", "run_while",
            "py_enumerate", "fs_of_list", "fs_insert", "forallb", "existsb", "combine", "r_", "m_", "b_",
            "run_for_r", "opt_eqb", "dict_set", "dict_of", "dict_get", "dict_has", "keys_inter", "N_plus_Z", "x_"}
 
+EMITTED |= {"pym_iter_for_r", "pym_dd_append", "pym_sort_fst", "fold_left"}      # third extension (metrics)
+
 COQ_TYPE = {"Z": "Z", "OZ": "option Z", "B": "bool", "IVL": "ivl", "OIVL": "option ivl",
             "LIST": "list ivl", "U": "unit", "FS": "list Z"}
 
@@ -425,6 +427,9 @@ class Tr:
         r = pysrc_mem.coerce_hook(self, text, ty, want)          # (extension mem)
         if r is not None:
             return r
+        if (ty, want) in self.spec.get("coercions", {}):
+            # (third extension, metrics) a declared subtype / union reading: spec coercions {(from, to): coq function}
+            return f"({self.spec['coercions'][(ty, want)]} {text})"
         raise Unsupported(f"cannot use {ty} as {want} {what}")
 
     def unify(self, t1, t2):
@@ -442,12 +447,16 @@ class Tr:
         return self.coerce(text, ty, want, ast.unparse(e), e, env), (want or ty)
 
     def expr0(self, e, env, want=None):
+        if want == "FUN":
+            return self.fun_arg(e, env), "FUN"          # (third extension, metrics) a function passed as a value
         if self.text_exprs and ast.unparse(e) in self.text_exprs:
             return self.text_exprs[ast.unparse(e)]
         if self.sums:
             r = self.sum_expr(e, env)
             if r is not None:
                 return r
+        if isinstance(e, ast.Constant) and type(e.value) is float and self.spec.get("ratio_type"):
+            return self.met_float_const(e)              # (third extension, metrics)
         if isinstance(e, ast.Constant):
             if e.value is None:
                 return "None", "NONE"
@@ -588,6 +597,15 @@ class Tr:
                     fn_, rty = self.spec["unops"][(ty, "~")]
                     return f"({fn_} {t})", rty
             raise Unsupported("unary operator")
+        # ---- third extension (metrics): x[a:b] on a declared timeline type, int / int as an exact ratio,
+        # defaultdict(list)
+        if isinstance(e, ast.Subscript) and isinstance(e.slice, ast.Slice) and self.spec.get("slices"):
+            return self.met_slice(e, env)
+        if isinstance(e, ast.BinOp) and isinstance(e.op, ast.Div) and self.spec.get("ratio_type"):
+            return self.met_ratio(e, env)
+        if isinstance(e, ast.Call) and ast.unparse(e) == "defaultdict(list)" and want in self.dicts and \
+                self.dicts[want].get("defaultdict"):
+            return self.met_defaultdict(e, env, want)
         if isinstance(e, ast.BinOp) and isinstance(e.op, ast.BitAnd):
             # d1.keys() & d2.keys()
             ds = []
@@ -690,6 +708,9 @@ class Tr:
         g = e.generators[0]
         if g.is_async:
             raise Unsupported("comprehension target")
+        r3 = self.met_comp_parts_tuple(e, env)          # (third extension, metrics) `for a, b, c in <list of tuples>`
+        if r3 is not None:
+            return r3
         if isinstance(g.target, ast.Tuple):
             # for i, x in enumerate(xs)
             it = g.iter
@@ -721,6 +742,14 @@ class Tr:
 
     def comprehension(self, e, env, want):
         # (elt for x in stream if cond)  ->  map (fun x => elt) (filter (fun x => cond) stream)
+        if isinstance(e.elt, ast.Tuple) and want is not None and self.is_list(want) and want != "FS" and \
+                self.item_of(want) in self.tuples:
+            # (third extension, metrics) a tuple element of the declared tuple type the context asks for
+            if any(t in self.records for t in self.tuples[self.item_of(want)]):
+                raise Unsupported("a list of tuples of mutable records")
+            src, _sty, x, inner = self.comp_parts(e, env)
+            elt, _ = self.expr(e.elt, inner, self.item_of(want))
+            return f"(map (fun {x} => {elt}) {src})", want
         g = e.generators[0]
         src, sty, x, inner = self.comp_parts(e, env)
         if sty is not None and isinstance(e.elt, ast.Name) and isinstance(g.target, ast.Name) \
@@ -864,6 +893,13 @@ class Tr:
                 raise Unsupported(f"argument of {fn} is not a string literal")
         args = [a for a, t in zip(args, argtys) if t != "STRLIT"]
         argtys = [t for t in argtys if t != "STRLIT"]
+        # (third extension, metrics) "=name": the argument must be exactly the untouched Python parameter
+        # `name` (threaded through unchanged, e.g. the zone name tz); it is dropped
+        for a, t in zip(args, argtys):
+            if isinstance(t, str) and t.startswith("="):
+                self.met_passthrough(a, t[1:], env, fn)
+        args = [a for a, t in zip(args, argtys) if not (isinstance(t, str) and t.startswith("="))]
+        argtys = [t for t in argtys if not (isinstance(t, str) and t.startswith("="))]
         if set(kws) != set(fixed) | {n for n, _ in kwt}:
             raise Unsupported(f"keyword arguments of {fn}")
         for key, text in fixed.items():
@@ -996,6 +1032,10 @@ class Tr:
             inner = self.bind(env, p, self.item_of(xty))
             k, _ = self.expr(lam.body, inner, "Z")
             return f"(bisect_right (fun {cname(p)} => {k}) {xs} {v})", "Z"
+        # ---- third extension (metrics): sum(..), isinstance on an abstract type, f(*xs), sorted(.. d.items())
+        r3 = self.met_call(e, fn, env)
+        if r3 is not None:
+            return r3
         if fn in self.calls:
             cs = self.pick_spec(self.calls[fn], fn, e)
             if isinstance(cs, tuple) and fn.endswith(".fetch"):
@@ -1181,6 +1221,8 @@ class Tr:
             return c.func.value.id, c, "append"
         if isinstance(c.func, ast.Attribute) and c.func.attr == "extend" and isinstance(c.func.value, ast.Name):
             return c.func.value.id, c, "extend"      # (tsmall)
+        if self.met_dd_append_shape(s) is not None:
+            return self.met_dd_append_shape(s), c, "ddappend"      # (third extension, metrics) d[k].append(v)
         return None
 
     def self_is_record(self):
@@ -1445,6 +1487,12 @@ class Tr:
         if not stmts:
             return pad + fin(env, "end")
         s, rest = stmts[0], list(stmts[1:])
+        # ---- third extension (metrics): match on string literals, declared closures, unit calls, d[k].append(v)
+        if isinstance(s, getattr(ast, "Match", ())) and not any(isinstance(c.pattern, ast.MatchClass) for c in s.cases):
+            return self.block([self.met_desugar_match(s, env)] + rest, env, fin, ind)      # (class patterns: extension mem)
+        r3 = self.met_stmt(s, rest, env, fin, ind)
+        if r3 is not None:
+            return r3
         if isinstance(s, ast.Expr) and isinstance(s.value, ast.Constant) and isinstance(s.value.value, str):
             return self.block(rest, env, fin, ind)           # docstring
         if isinstance(s, ast.Pass):
@@ -1775,6 +1823,9 @@ class Tr:
         if rest and self.is_pure(s):
             return self.join_if(s, rest, env, fin, ind)
         ref = self.refine_name(s.test)
+        if ref is not None and self.spec.get("match_options") and isinstance(env.get(ref[0]), str) and \
+                env[ref[0]].startswith("O:"):
+            return self.met_option_match(s, ref, rest, env, fin, ind)     # (third extension, metrics)
         if ref is not None and env.get(ref[0]) in OPT:
             n, some_in_body = ref
             x = cname(n)
@@ -2114,6 +2165,9 @@ class Tr:
                 f"{pad}| Some (out1_, {unpack.lstrip(chr(39))}) =>\n{p1}let out := out ++ out1_ in\n{rest_t}\n{pad}end")
 
     def loop(self, s, rest, env, fin, ind):
+        if self.spec.get("for_r") and isinstance(s, ast.For) and self.loop_depth == 0 and self.kind == "expr" and \
+                self.res and not self.plain:
+            return self.met_loop_for_r(s, rest, env, fin, ind)            # (third extension, metrics)
         if self.loop_depth == 1 and self.opt_body and isinstance(s, ast.While) and self.kind == "gen":
             return self.inner_while(s, rest, env, fin, ind)
         if self.loop_depth == 1 and isinstance(s, ast.For) and self.kind == "gen":
@@ -2251,6 +2305,7 @@ class Tr:
         self.pyargs = set(pyargs)
         self.sum_names = set()
         self.all_names = {x.id for x in ast.walk(fdef) if isinstance(x, ast.Name)} | set(pyargs)
+        self.fdef = fdef                                 # (third extension, metrics)
         env = {"$nn": frozenset(), "$y": False}
         params = [f"{{{v} : Type}}" for v in spec.get("tyvars", [])]
         body = list(fdef.body)
@@ -2282,6 +2337,13 @@ class Tr:
                 self.genparams[pname] = None
         if has_while:
             self.genparams["fuel"] = None
+        if spec.get("check_arg_order"):
+            # (third extension, metrics) the spec lists the Python parameters in the order the `def` has them
+            # (callers of the generated definition pass positional arguments in the spec's order);
+            # spec dropped_args: Python parameters that are deliberately not in scope (e.g. tz)
+            want_order = [p for p in pyargs if p not in set(spec.get("dropped_args", []))]
+            if [p for p, _ in spec["params"] if p in pyargs] != want_order:
+                raise Unsupported(f"the parameters of {fdef.name} are {pyargs}: not the order the spec declares")
         for st_ in self.state:
             if not self.is_type(self.genparams.get(st_)):
                 raise Unsupported(f"state variable {st_} is not a typed generated parameter")
@@ -2392,6 +2454,8 @@ class Tr:
                     return wrap(v)
                 if k == "raise":
                     return raise_text(e2, v)
+                if k == "end" and self.ret_type == "U" and spec.get("unit_fn"):
+                    return wrap("tt")                    # (third extension, metrics) a `-> None` function
                 raise Unsupported("function falls off its end without returning a value" if k == "end"
                                   else f"{k} outside a loop")
             text = self.block(body, env, fin, 1)
@@ -2655,6 +2719,333 @@ class Tr:
                     return True
         return False
 
+    # ================================================================ third extension (metrics.py)
+    # Everything below is additive; each construct is switched on by a spec key only the metrics specs use
+    # (harness/translate/srcspecs_met.py lists the TRUSTED readings).
+    def met_stored_names(self):
+        """names bound anywhere inside the function being translated (assignment / loop / comprehension /
+        with / except / match targets, nested defs, imports, global / nonlocal declarations)"""
+        out = set()
+        for x in ast.walk(self.fdef):
+            if isinstance(x, ast.Name) and isinstance(x.ctx, (ast.Store, ast.Del)):
+                out.add(x.id)
+            elif isinstance(x, (ast.FunctionDef, ast.AsyncFunctionDef, ast.ClassDef)) and x is not self.fdef:
+                out.add(x.name)
+            elif isinstance(x, ast.alias):
+                out.add((x.asname or x.name).split(".")[0])
+            elif isinstance(x, ast.ExceptHandler) and x.name:
+                out.add(x.name)
+            elif isinstance(x, (ast.Global, ast.Nonlocal)):
+                out |= set(x.names)
+            elif isinstance(x, (getattr(ast, "MatchAs", ()), getattr(ast, "MatchStar", ()))) and x.name:
+                out.add(x.name)
+            elif isinstance(x, getattr(ast, "MatchMapping", ())) and x.rest:
+                out.add(x.rest)
+        return out
+
+    def met_global_name(self, name, env):
+        """is `name` here the module-level / builtin name (not a parameter, not a local of this function)?"""
+        return name not in env and name not in self.pyargs and name not in self.met_stored_names()
+
+    def met_passthrough(self, a, name, env, fn):
+        if not (isinstance(a, ast.Name) and a.id == name and name in self.pyargs and name not in env
+                and name not in self.met_stored_names()):
+            raise Unsupported(f"argument of {fn} is not the untouched parameter {name}")
+
+    def fun_arg(self, e, env):
+        """a function passed as a value: a closure the spec declares (closure_defs, defined on this path) or a
+        module-level / builtin function the spec declares (funargs)"""
+        if not isinstance(e, ast.Name):
+            raise Unsupported(f"function argument {ast.unparse(e)[:40]}")
+        n = e.id
+        if env.get(n) == "FUNV":
+            return self.__dict__.setdefault("funvals", {})[n]
+        if n in self.spec.get("funargs", {}) and self.met_global_name(n, env):
+            return self.spec["funargs"][n]
+        raise Unsupported(f"function value {n}")
+
+    def met_float_const(self, e):
+        """TRUSTED reading (ratio_type): the float 0.0 is the exact ratio 0 / 1"""
+        if repr(e.value) != "0.0":
+            raise Unsupported(f"constant {e.value!r}")
+        return "(0, 1)", self.spec["ratio_type"]
+
+    def met_ratio(self, e, env):
+        """TRUSTED reading (ratio_type): int / int (a float) is the exact pair (numerator, denominator);
+        that the denominator is positive wherever a pair is built is PROVED of the generated text"""
+        a, _ = self.expr(e.left, env, "Z")
+        b, _ = self.expr(e.right, env, "Z")
+        return f"({a}, {b})", self.spec["ratio_type"]
+
+    def met_slice(self, e, env):
+        """x[a:b] with x of a declared timeline type: a call into the expression layer (spec slices)"""
+        sl = e.slice
+        if sl.lower is None or sl.upper is None or sl.step is not None:
+            raise Unsupported(f"slice {ast.unparse(e)[:40]}")
+        xs, xty = self.expr0(e.value, env)
+        if xty not in self.spec["slices"]:
+            raise Unsupported(f"slice of {xty}")
+        fnc, ret = self.spec["slices"][xty]
+        a, _ = self.expr(sl.lower, env, "Z")
+        b, _ = self.expr(sl.upper, env, "Z")
+        return f"({fnc} {xs} {a} {b})", ret
+
+    def met_defaultdict(self, e, env, want):
+        """defaultdict(list) for a declared dict type marked defaultdict: the empty dictionary"""
+        dd = self.dicts[want]
+        if not self.met_global_name("defaultdict", env) or not self.met_global_name("list", env) or \
+                not self.is_list(dd["val"]):
+            raise Unsupported("defaultdict(list)")
+        return f"(@nil ({self.coq_type(dd['key'])} * ({self.coq_type(dd['val'])})))", want
+
+    def met_call(self, e, fn, env):
+        if fn == "sum" and len(e.args) == 1 and not e.keywords and self.met_global_name("sum", env):
+            # sum(xs) of ints: 0 + x1 + x2 + .., left to right
+            t, ty = self.expr0(e.args[0], env)
+            if not self.same(ty, "L:Z"):
+                raise Unsupported(f"sum of {ty}")
+            return f"(fold_left Z.add {t} 0)", "Z"
+        if fn == "isinstance" and self.spec.get("isinstance") and len(e.args) == 2 and not e.keywords and \
+                isinstance(e.args[1], ast.Name) and self.met_global_name("isinstance", env):
+            # a value of an abstract type the spec declares to be (or not to be) an instance of a class
+            _t, ty = self.expr0(e.args[0], env)
+            key = (ty, e.args[1].id)
+            if key not in self.spec["isinstance"] or not self.met_global_name(e.args[1].id, env):
+                raise Unsupported(f"isinstance of {ty}")
+            return self.spec["isinstance"][key], "B"
+        cs = self.calls.get(fn)
+        if isinstance(cs, dict) and cs.get("star"):
+            # f(*xs): every item of the stream is a positional argument
+            if len(e.args) != 1 or not isinstance(e.args[0], ast.Starred) or e.keywords or fn in env:
+                raise Unsupported(f"call shape of {fn}")
+            t, _ = self.expr(e.args[0].value, env, cs["star"])
+            return f"({cs['coq']} {t})", cs["ret"]
+        if fn == "sorted" and self.spec.get("sorted_items") and len(e.args) == 1 and not e.keywords and \
+                isinstance(e.args[0], ast.GeneratorExp) and self.met_global_name("sorted", env):
+            return self.met_sorted_items(e.args[0], env)
+        return None
+
+    def met_sorted_items(self, g, env):
+        """sorted((k, f(k, v)) for k, v in d.items()) with int keys: the first components are the keys of a
+        dictionary, hence pairwise different, so the second components are never compared and the result is
+        the pairs in ascending key order (pym_sort_fst)"""
+        if len(g.generators) != 1:
+            raise Unsupported("nested comprehension")
+        gen = g.generators[0]
+        tg, it = gen.target, gen.iter
+        if gen.ifs or gen.is_async or not (isinstance(tg, ast.Tuple) and len(tg.elts) == 2 and
+                                           all(isinstance(t, ast.Name) for t in tg.elts)) or \
+                not (isinstance(it, ast.Call) and isinstance(it.func, ast.Attribute) and it.func.attr == "items"
+                     and not it.args and not it.keywords):
+            raise Unsupported("sorted(..) over something else than `for k, v in d.items()`")
+        if not (isinstance(g.elt, ast.Tuple) and len(g.elt.elts) == 2 and isinstance(g.elt.elts[0], ast.Name)
+                and g.elt.elts[0].id == tg.elts[0].id and tg.elts[0].id != tg.elts[1].id):
+            raise Unsupported("sorted(..): the first component must be the dictionary key")
+        self.cond_depth += 1
+        try:
+            src, _sty, x, inner = self.comp_parts(g, env)
+            dty = self.expr0(it.func.value, env)[1]
+            if dty not in self.dicts or self.dicts[dty]["key"] != "Z":
+                raise Unsupported(f"sorted(..) over the items of {dty}")
+            b, bty = self.expr0(g.elt.elts[1], inner)
+        finally:
+            self.cond_depth -= 1
+        cands = [n for n, comps in self.tuples.items() if list(comps) == ["Z", bty]]
+        if len(cands) != 1:
+            raise Unsupported(f"no declared tuple type for (int, {bty})")
+        return f"(pym_sort_fst (map (fun {x} => ({cname(tg.elts[0].id)}, {b})) {src}))", "L:" + cands[0]
+
+    def met_comp_parts_tuple(self, e, env):
+        """`for a, b, c in xs` with xs a list of a declared tuple type, or `for k, v in d.items()`"""
+        g = e.generators[0]
+        it = g.iter
+        if not isinstance(g.target, ast.Tuple) or not (self.tuples or self.dicts) or \
+                (isinstance(it, ast.Call) and isinstance(it.func, ast.Name) and it.func.id == "enumerate"):
+            return None
+        names = g.target.elts
+        if not all(isinstance(t, ast.Name) for t in names) or len({t.id for t in names}) != len(names):
+            raise Unsupported("comprehension target")
+        if isinstance(it, ast.Call) and isinstance(it.func, ast.Attribute) and it.func.attr == "items" \
+                and not it.args and not it.keywords:
+            src, dty = self.expr0(it.func.value, env)
+            if dty not in self.dicts:
+                raise Unsupported(f".items() of {dty}")
+            comps = [self.dicts[dty]["key"], self.dicts[dty]["val"]]
+        else:
+            src, sty = self.expr0(it, env)
+            if not self.is_list(sty) or sty == "FS" or self.item_of(sty) not in self.tuples:
+                raise Unsupported(f"tuple target over {sty}")
+            comps = list(self.tuples[self.item_of(sty)])
+        if len(comps) != len(names) or any(c in self.records for c in comps):
+            raise Unsupported("comprehension target")
+        inner = env
+        for t, c in zip(names, comps):
+            inner = self.bind(inner, t.id, c)
+        x = "'(" + ", ".join(cname(t.id) for t in names) + ")"
+        for cond in g.ifs:
+            c, _ = self.expr(cond, inner, "B")
+            src = f"(filter (fun {x} => {c}) {src})"
+            inner = self.refine(cond, inner, True)
+        return src, None, x, inner
+
+    def met_dd_append_shape(self, s):
+        """d[k].append(v) as a statement (only in a spec that declares a defaultdict type) -> the name d"""
+        if not any(d.get("defaultdict") for d in self.dicts.values()):
+            return None
+        if not (isinstance(s, ast.Expr) and isinstance(s.value, ast.Call)):
+            return None
+        f = s.value.func
+        if isinstance(f, ast.Attribute) and f.attr == "append" and isinstance(f.value, ast.Subscript) and \
+                isinstance(f.value.value, ast.Name):
+            return f.value.value.id
+        return None
+
+    def met_dd_append(self, s, rest, env, fin, ind):
+        """d[k].append(v) on a defaultdict(list): a missing key is inserted (at the end) with [v], a present
+        key keeps its position and gets v appended"""
+        pad = "  " * ind
+        c = s.value
+        name = c.func.value.value.id
+        if name not in env or env[name] not in self.dicts or not self.dicts[env[name]].get("defaultdict") or \
+                name in self.pyargs:
+            raise Unsupported(f"statement {ast.unparse(s)[:80]}")
+        dd = self.dicts[env[name]]
+        if not self.is_list(dd["val"]) or self.item_of(dd["val"]) in self.records or len(c.args) != 1 or \
+                c.keywords or isinstance(c.func.value.slice, ast.Slice):
+            raise Unsupported(f"statement {ast.unparse(s)[:80]}")
+        k, _ = self.expr(c.func.value.slice, env, dd["key"])
+        v, _ = self.expr(c.args[0], env, self.item_of(dd["val"]))
+        text = f"(pym_dd_append {dd['eqb']} {k} {v} {cname(name)})"
+        return self.assign(name, text, env[name], env, pad, rest, fin, ind)
+
+    def met_stmt(self, s, rest, env, fin, ind):
+        """statements of the third extension; None = not one of them"""
+        pad = "  " * ind
+        if isinstance(s, ast.FunctionDef) and s.name in self.spec.get("closure_defs", {}):
+            # a local closure translated on its own (another spec, `nested`): here only its name is bound,
+            # as a function value that may be passed on (fun_arg)
+            same = [x for x in ast.walk(self.fdef)
+                    if (isinstance(x, (ast.FunctionDef, ast.AsyncFunctionDef, ast.ClassDef)) and x.name == s.name
+                        and x is not self.fdef) or
+                    (isinstance(x, ast.Name) and x.id == s.name and isinstance(x.ctx, (ast.Store, ast.Del)))]
+            if self.loop_depth or s.name in env or s.name in self.pyargs or len(same) != 1:
+                raise Unsupported(f"local function {s.name}")
+            env2 = self.bind(env, s.name, "FUNV")
+            self.__dict__.setdefault("funvals", {})[s.name] = self.spec["closure_defs"][s.name]
+            return self.block(rest, env2, fin, ind)
+        if self.sums and self.needs_match(s, env) is not None:
+            return None
+        if isinstance(s, ast.Expr) and isinstance(s.value, ast.Call):
+            fn = ast.unparse(s.value.func)
+            cs = self.calls.get(fn)
+            if isinstance(cs, dict) and cs.get("res") and cs.get("ret") == "U" and fn not in env:
+                # a call made for its exceptions only: f(..) returns None or raises
+                _, hs = self.hoisted(s.value, env, lambda: self.call(s.value, env))
+                pre, post, env2 = self.hoist_prefix(hs, env, pad)
+                return pre + self.block(rest, env2, fin, ind) + post
+            if self.met_dd_append_shape(s) is not None:
+                return self.met_dd_append(s, rest, env, fin, ind)
+        if isinstance(s, ast.Return) and s.value is None and self.kind == "expr" and self.spec.get("unit_fn") and \
+                self.ret_type == "U":
+            return pad + fin(env, "return", "tt")
+        return None
+
+    def met_option_match(self, s, ref, rest, env, fin, ind):
+        """`if x is None` / `if x is not None` on a name of type O:T: a match that rebinds x at type T"""
+        pad = "  " * ind
+        n, some_in_body = ref
+        x = cname(n)
+        inner = dict(env)
+        inner[n] = env[n][2:]
+        if inner[n] in self.sums:
+            self.sum_names.add(n)
+        some_blk, none_blk = (s.body, s.orelse) if some_in_body else (s.orelse, s.body)
+        a = self.block(list(some_blk) + rest, inner, fin, ind + 1)
+        b = self.block(list(none_blk) + rest, env, fin, ind + 1)
+        return f"{pad}match {x} with\n{pad}| Some {x} =>\n{a}\n{pad}| None =>\n{b}\n{pad}end"
+
+    def met_desugar_match(self, s, env):
+        """match NAME: case "lit": A ... [case _: Z]   ->   if NAME == "lit": A elif ... [else: Z]
+        (TRUSTED reading: a literal pattern matches iff subject == literal; no guards, no captures)"""
+        if not isinstance(s.subject, ast.Name):
+            raise Unsupported("match subject")
+        items, orelse = [], []
+        for i, c in enumerate(s.cases):
+            p = c.pattern
+            if c.guard is not None:
+                raise Unsupported("match guard")
+            if isinstance(p, ast.MatchValue) and isinstance(p.value, ast.Constant) and isinstance(p.value.value, str):
+                items.append((p.value, c.body))
+            elif isinstance(p, ast.MatchAs) and p.pattern is None and p.name is None and i == len(s.cases) - 1:
+                orelse = list(c.body)
+            else:
+                raise Unsupported("match pattern")
+        if not items:
+            raise Unsupported("match without literal cases")
+        node = None
+        for lit, body in reversed(items):
+            test = ast.Compare(left=ast.Name(id=s.subject.id, ctx=ast.Load()), ops=[ast.Eq()], comparators=[lit])
+            node = ast.If(test=test, body=list(body), orelse=(orelse if node is None else [node]))
+        return ast.fix_missing_locations(ast.copy_location(node, s))
+
+    def met_loop_for_r(self, s, rest, env, fin, ind):
+        """a `for` of a value-returning function with a res result whose body may call generated functions
+        with a res result; the target is a name or a tuple of names over a list of a declared tuple type:
+              pym_iter_for_r (fun state target => BODY) (fun state => rest) state stream
+        BODY ends in RDone (SCont state) | RDone (SBrk state) | RDone (SRet <result>) or is an abnormal res"""
+        if s.orelse:
+            raise Unsupported("loop with else")
+        pad, p1 = "  " * ind, "  " * (ind + 1)
+        stream, sty = self.expr0(s.iter, env)
+        if not self.is_list(sty) or sty == "FS":
+            raise Unsupported(f"loop over {sty}")
+        ity = self.item_of(sty)
+        if isinstance(s.target, ast.Name):
+            tnames, ttys, pat = [s.target.id], [ity], cname(s.target.id)
+        elif isinstance(s.target, ast.Tuple) and ity in self.tuples and \
+                all(isinstance(t, ast.Name) for t in s.target.elts) and \
+                len({t.id for t in s.target.elts}) == len(s.target.elts) == len(self.tuples[ity]):
+            tnames, ttys = [t.id for t in s.target.elts], list(self.tuples[ity])
+            pat = "'(" + ", ".join(cname(t) for t in tnames) + ")"
+        else:
+            raise Unsupported("loop target")
+        if any(t in self.records for t in ttys):
+            raise Unsupported("loop over mutable records")
+        state = [k for k in self.assigned(s.body, env) if k in env]
+        if any(t in state for t in tnames):
+            raise Unsupported("loop target is a variable that exists before the loop")
+        state_ty = {k: (self.genparams[k[1:]] if k.startswith("@") else self.declared.get(k, env[k])) for k in state}
+
+        def pack(e2):
+            items = [self.coerce(cname(v), e2[v], state_ty[v], f"(state variable {v})") for v in state]
+            return "tt" if not items else (items[0] if len(items) == 1 else "(" + ", ".join(items) + ")")
+        names = [cname(v) for v in state]
+        unpack = "_" if not names else (names[0] if len(names) == 1 else "'(" + ", ".join(names) + ")")
+        env_loop = dict(env)
+        for v in state:
+            env_loop = self.kill(env_loop, v) if not v.startswith("@") else env_loop
+            env_loop[v] = state_ty[v]
+        env_body = env_loop
+        for t, ty in zip(tnames, ttys):
+            env_body = self.bind(env_body, t, ty)
+
+        def fin_body(e2, k, v=None):
+            if k in ("end", "continue"):
+                return f"(RDone (SCont {pack(e2)}))"
+            if k == "break":
+                return f"(RDone (SBrk {pack(e2)}))"
+            if k == "raise":
+                return fin(e2, k, v)
+            return f"(RDone (SRet {fin(e2, k, v)}))"
+        self.loop_depth += 1
+        try:
+            body_t = self.block(s.body, env_body, fin_body, ind + 2)
+        finally:
+            self.loop_depth -= 1
+        post_t = self.block(rest, env_loop, fin, ind + 2)
+        return (f"{pad}pym_iter_for_r\n{p1}(fun {unpack} {pat} =>\n{body_t})\n{p1}(fun {unpack} =>\n{post_t})\n"
+                f"{p1}{pack(env)} {stream}")
+
 
 def find_class(tree, cls):
     found = [n for n in tree.body if isinstance(n, ast.ClassDef) and n.name == cls]
@@ -2797,6 +3188,40 @@ def check_facts(repo, trees, spec):
                     raise Unsupported(f"global {tg.id}")
         else:
             raise Unsupported(f"unknown fact {fact[0]}")
+def find_nested(outer, name):
+    """(third extension, metrics) the local function `name` defined (once) inside `outer`.  It is translated as
+    a function of its own parameters only: it must not capture a local of the enclosing function."""
+    found = [n for n in ast.walk(outer) if isinstance(n, ast.FunctionDef) and n is not outer and n.name == name]
+    if len(found) != 1:
+        raise Unsupported(f"local function {name} of {outer.name} " + ("not found" if not found else "defined twice"))
+    inner = found[0]
+    a = inner.args
+    if a.defaults or a.kw_defaults or a.vararg or a.kwarg or a.kwonlyargs or a.posonlyargs:
+        raise Unsupported(f"parameters of the local function {name}")
+
+    def bound(fn):
+        out = {x.arg for x in fn.args.posonlyargs + fn.args.args + fn.args.kwonlyargs}
+        out |= {x.arg for x in (fn.args.vararg, fn.args.kwarg) if x is not None}
+        for n in ast.walk(fn):
+            if isinstance(n, ast.Name) and isinstance(n.ctx, (ast.Store, ast.Del)):
+                out.add(n.id)
+            elif isinstance(n, (ast.FunctionDef, ast.AsyncFunctionDef, ast.ClassDef)) and n is not fn:
+                out.add(n.name)
+            elif isinstance(n, ast.alias):
+                out.add((n.asname or n.name).split(".")[0])
+            elif isinstance(n, ast.ExceptHandler) and n.name:
+                out.add(n.name)
+        return out
+    if sum(1 for n in ast.walk(outer) if isinstance(n, ast.Name) and n.id == name
+           and isinstance(n.ctx, (ast.Store, ast.Del))):
+        raise Unsupported(f"{name} is also assigned in {outer.name}")
+    outer_bound, inner_bound = bound(outer), bound(inner)
+    for n in ast.walk(inner):
+        if isinstance(n, (ast.Nonlocal, ast.Global)):
+            raise Unsupported(f"{type(n).__name__} in the local function {name}")
+        if isinstance(n, ast.Name) and isinstance(n.ctx, ast.Load) and n.id in outer_bound and n.id not in inner_bound:
+            raise Unsupported(f"the local function {name} captures {n.id} of {outer.name}")
+    return inner
 
 
 HEADER = """(* GENERATED on every run by harness/translate/pysrc.py from the Python sources of the tree
@@ -2825,6 +3250,8 @@ def translate_all(repo: Path, specs, header=HEADER):
                 continue
             fdef = (find_function_ov if spec.get("overloads") else find_function)(
                 trees[path], spec.get("cls"), spec["func"])
+            if spec.get("nested"):
+                fdef = find_nested(fdef, spec["nested"])         # (third extension, metrics) a local closure
             for line in spec.get("file_has", []):
                 # a module-level statement the spec's reading of a name depends on (e.g. an import)
                 if not any(ast.unparse(n) == line for n in trees[path].body):
